@@ -147,7 +147,7 @@ func main() {
 	}
 
 	// 5. sibling-order stream: parents with 3..5 children, an earlier sibling deleted as invalid-when-connected, ties among the rest
-	n = r.N(10, 160)
+	n = r.N(10, 100)
 	for i := 0; i < n; i++ {
 		runScenario("siblings", false, g.U64(), 3+g.Intn(3))
 	}
